@@ -302,7 +302,8 @@ def call_requests(calls, by_array, rng, want_blocks=True):
                 concat = {"identity_func": 1, "_sum_to": 2}.get(getattr(f0, "__name__", ""), 0)
                 add(fn, "pr|%s|%s|%s|%d" % (enc_chunks(x.chunks),
                                             ",".join("%d:%d" % (k, v) for k, v in split.items()) or "-",
-                                            ",".join("%d:%d" % (k, v) for k, v in comb.items()) or "-",
+                                            "/".join(("%d:t%s" % (k, enc_nats(v))) if isinstance(v, tuple) else ("%d:%d" % (k, v))
+                                                     for k, v in comb.items()) or "-",
                                             concat), res)
             elif fn == "concat":
                 if not isinstance(res, ArrayMeta):
@@ -328,6 +329,10 @@ def call_requests(calls, by_array, rng, want_blocks=True):
                     continue
                 axis = int(kw.get("axis", 0)) % len(res.shape)
                 add(fn, "stack|%s|%d" % (enc_list(enc_chunks(s.chunks) for s in src), axis), res)
+                if all(isinstance(x, ArrayMeta) for x in a[0]):
+                    out.append({"request": "stackunify|" + enc_list(enc_chunks(x.chunks) for x in a[0]), "fn": "stack-unify",
+                                "coords": [], "array": res.name,
+                                "expect": {"plain": "ok " + "/".join(enc_chunks(s.chunks) for s in src)}, "extra": {}})
             elif fn == "unstack":
                 x = a[0]
                 axis = int(kw.get("axis", 0)) % len(x.shape)
@@ -428,7 +433,8 @@ def compare_answer(ctx, item, ans, case):
     small = {"request": item["request"], "array": item["array"], "case": case}
     if "plain" in exp:
         if ans != exp["plain"]:
-            ctx.disagree("ShapeCalc.reducedShape = shape of reduction()", small, ans, exp["plain"])
+            ctx.disagree("ShapeCalc.%s = the real %s" % (("stackUnify", "operands of the stack op") if fn == "stack-unify"
+                                                        else ("reducedShape", "shape of reduction()")), small, ans, exp["plain"])
         return
     a = parse_answer(ans)
     if a["status"] != "ok":
@@ -824,15 +830,12 @@ def classify_mismatches(calls, mismatches):
     zero_site = set()
     for c in calls:
         fn, a, kw, res_ = c["fn"], c["args"], c["kwargs"], c["result"]
-        if fn == "_qr_first_step":
-            A = a[0]
-            if len(A.shape) == 2 and min(A.chunks[0]) < A.shape[1]:
-                for r in res_:
-                    site[r.name] = "qr-short-row-chunk"
-        elif fn == "stack":
-            src = source_metas(c["raw_result"]) or []
-            if len({s.chunks for s in src if s is not None}) > 1:
-                site[res_.name] = "stack-mixed-chunks"
+        if fn == "stack":
+            # the repaired stack rechunks operands chunked differently from the first -- but rechunk returns zero-size
+            # arrays unchanged
+            src = [s for s in (source_metas(c["raw_result"]) or []) if s is not None]
+            if isinstance(res_, ArrayMeta) and 0 in res_.shape and len({s.chunks for s in src}) > 1:
+                zero_site.add(res_.name)
         elif fn == "blockwise" and kw.get("align_arrays", True):
             # unify_chunks relies on rechunk, and rechunk is a no-op on zero-size arrays (_rechunk_plan): operands of
             # a zero-size elementwise op can keep a chunking that differs from the output's
@@ -1032,17 +1035,28 @@ def oracle_programs(ctx, n, tag="oracle", programs=None):
 
 
 TRIGGERS = {
-    "qr-short-row-chunk": {"inputs": [{"shape": [9, 4], "chunks": [4, 4], "dtype": "float64", "data": "perm:0", "salt": 0}],
-                           "ops": [{"op": "qr", "family": "qr", "in": [0], "params": {"part": "recon"}}], "outputs": [1]},
-    "stack-mixed-chunks": {"inputs": [{"shape": [2], "chunks": [2], "dtype": "int64", "data": "arange", "salt": 0},
-                                      {"shape": [2], "chunks": [1], "dtype": "int64", "data": "arange", "salt": 1}],
-                           "ops": [{"op": "stack", "family": "stack", "in": [0, 1], "params": {"axis": 0}}], "outputs": [2]},
     "zero-size-rechunk-skipped": {"inputs": [{"shape": [2, 0], "chunks": [1, 1], "dtype": "float64", "data": "arange", "salt": 0},
                                              {"shape": [2, 0], "chunks": [2, 1], "dtype": "float64", "data": "arange", "salt": 1}],
                                   "ops": [{"op": "add", "family": "binary", "in": [0, 1], "params": {"_k": "binary"}}], "outputs": [2]},
     "argreduce-negative-axis": {"inputs": [{"shape": [6], "chunks": [3], "dtype": "int64", "data": "arange", "salt": 0}],
                                 "ops": [{"op": "argmax", "family": "argreduce", "in": [0],
                                          "params": {"axis": -1, "keepdims": False, "split_every": None}}], "outputs": [1]},
+}
+
+# triggers of repaired defects: must hold now (declined while building, or every block matches its region)
+REGRESSIONS = {
+    "qr-short-row-chunk (fixed 19968d0)": {"inputs": [{"shape": [9, 4], "chunks": [4, 4], "dtype": "float64", "data": "perm:0", "salt": 0}],
+                                           "ops": [{"op": "qr", "family": "qr", "in": [0], "params": {"part": "recon"}}], "outputs": [1]},
+    "qr-wide (fixed 19968d0)": {"inputs": [{"shape": [2, 3], "chunks": [2, 3], "dtype": "float64", "data": "perm:0", "salt": 0}],
+                                "ops": [{"op": "qr", "family": "qr", "in": [0], "params": {"part": "recon"}}], "outputs": [1]},
+    "stack-mixed-chunks (fixed f3856f5)": {"inputs": [{"shape": [2], "chunks": [2], "dtype": "int64", "data": "arange", "salt": 0},
+                                                      {"shape": [2], "chunks": [1], "dtype": "int64", "data": "arange", "salt": 1}],
+                                           "ops": [{"op": "stack", "family": "stack", "in": [0, 1], "params": {"axis": 0}}], "outputs": [2]},
+    "stack-mixed-chunks-swapped (fixed f3856f5)": {"inputs": [{"shape": [5], "chunks": [1], "dtype": "int64", "data": "arange", "salt": 0},
+                                                              {"shape": [5], "chunks": [3], "dtype": "int64", "data": "arange", "salt": 1}],
+                                                   "ops": [{"op": "stack", "family": "stack", "in": [0, 1, 0], "params": {"axis": 1}}], "outputs": [2]},
+    "scan-ragged-groups (fixed 5fff6ae)": {"inputs": [{"shape": [7], "chunks": [1], "dtype": "int64", "data": "arange", "salt": 0}],
+                                           "ops": [{"op": "cumulative_sum", "family": "cumulative", "in": [0], "params": {"axis": 0}}], "outputs": [1]},
 }
 
 
